@@ -139,7 +139,7 @@ impl<CharIter: Iterator<Item = char>> Lexer<CharIter> {
                         }
                         _ => Ok(Some(TokenData::Unquote)),
                     },
-                    None => Ok(None),
+                    None => Ok(Some(TokenData::Unquote)),
                 },
                 '.' => match self.peekable_char_stream.peek() {
                     Some(c) => match c {
